@@ -3,8 +3,8 @@
    ScopeProofs.v), with the axioms it rests on. *)
 From Coq Require Import List String Bool Arith.
 From Utap Require Import SR OpTableRef ExprSyntax Scope ScopeProofs.
-From Utap Require Import CommentLex CommentLexProofs.
-From Utap.gen Require Import Gen_CommentRules.
+From Utap Require Import CommentLex CommentLexProofs LexModel LexProofs LexSep.
+From Utap.gen Require Import Gen_CommentRules Gen_LexRules.
 From Utap.gen Require Import Gen_OpTable.
 Import ListNotations.
 
@@ -72,6 +72,41 @@ Theorem C09_text_without_comments_unchanged : forall fuel s, List.length s < fue
   (forall k, starts open_mark (skipn k s) = false /\ starts line_mark (skipn k s) = false) -> strip fuel s = Some s.
 Proof. exact strip_without_comments. Qed.
 Print Assumptions C09_text_without_comments_unchanged.
+
+(* Blanks between tokens (LexModel.v: the scanner of lexer.l over the literal table regenerated from it; Properties_C02 ties the table
+   and the other rules).  A word is a text the scanner takes as exactly one token whatever blank and text follow it; identifiers
+   (keywords, names) and numbers are words.  Words separated by arbitrary nonempty runs of spaces and tabs are scanned into exactly
+   those words: token boundaries never cross a blank, and the choice of the runs is immaterial. *)
+Theorem C09_literal_table_has_no_blanks : table_blank_free gen_literals.
+Proof. apply table_ok_blank_free. vm_compute. reflexivity. Qed.
+Print Assumptions C09_literal_table_has_no_blanks.
+Theorem C09_words_are_scanned_as_written : forall ws bs fuel, List.length bs = List.length ws -> 2 * List.length ws < fuel ->
+  Forall (fun kw => solid gen_literals (fst kw) (snd kw) /\ not_line_end (fst kw)) ws -> Forall blanks bs -> lex gen_literals fuel (render ws bs) = Some ws.
+Proof. exact (lex_words gen_literals C09_literal_table_has_no_blanks). Qed.
+Print Assumptions C09_words_are_scanned_as_written.
+Theorem C09_choice_of_blanks_is_immaterial : forall ws bs bs' fuel, List.length bs = List.length ws -> List.length bs' = List.length ws -> 2 * List.length ws < fuel ->
+  Forall (fun kw => solid gen_literals (fst kw) (snd kw) /\ not_line_end (fst kw)) ws -> Forall blanks bs -> Forall blanks bs' ->
+  lex gen_literals fuel (render ws bs) = lex gen_literals fuel (render ws bs').
+Proof. exact (lex_blank_invariance gen_literals C09_literal_table_has_no_blanks). Qed.
+Print Assumptions C09_choice_of_blanks_is_immaterial.
+Theorem C09_identifiers_and_numbers_are_words : forall w,
+  (ident_word w = true -> solid gen_literals (word_kind gen_literals KIdent w) w) /\ (number_word w = true -> solid gen_literals (word_kind gen_literals KNum w) w).
+Proof. intro w. split; [apply (ident_is_solid gen_literals C09_literal_table_has_no_blanks) | apply (number_is_solid gen_literals C09_literal_table_has_no_blanks)]. Qed.
+Print Assumptions C09_identifiers_and_numbers_are_words.
+(* so is every operator, bracket and punctuation literal of lexer.l (all literals that start with a symbol character, except the
+   backslash and the double quote, which start the continuation-line and string rules) *)
+Theorem C09_operator_literals_are_words : forall t tok a r, In (t, tok) gen_literals -> list_ascii_of_string t = a :: r -> symbol_head a = true ->
+  solid gen_literals (KLit tok) (a :: r).
+Proof.
+  assert (operators_are_words gen_literals = true) as H by (vm_compute; reflexivity).
+  intros t tok a r Hin Et Ha. unfold operators_are_words in H. rewrite forallb_forall in H. specialize (H (t, tok) Hin). cbn [fst snd] in H.
+  rewrite Et, Ha in H. apply (symbol_is_solid gen_literals C09_literal_table_has_no_blanks). exact H.
+Qed.
+Print Assumptions C09_operator_literals_are_words.
+Example C09_words_example :
+  lex gen_literals 20 (list_ascii_of_string ("guard   x9" ++ String (Ascii.ascii_of_nat 9) "  location 42 ")) =
+  Some [(KIdent, list_ascii_of_string "guard"); (KIdent, list_ascii_of_string "x9"); (KLit "T_LOCATION", list_ascii_of_string "location"); (KNum, list_ascii_of_string "42")].
+Proof. vm_compute. reflexivity. Qed.
 
 Example C09_example :
   let its := [Decl 1 10; Scope [Use 1; Decl 2 11; Use 2; Use 3]; Use 2] in
